@@ -353,14 +353,28 @@ def r7_3(run):
     # what is cached is the order that was applied to the stored matrix
     srt = [e for e in writes if e.index[0][1] == "hydraulic_data_sorting"]
     mat = [e for e in writes if e.index[0][1] == "hydraulic_matrix"]
-    ok = len(srt) == 1 and len(mat) == 1 and srt[0].value[0] == "call" and srt[0].value[1] == ("x", "numpy.lexsort")
+    ok = len(srt) == 1 and len(mat) == 1
+    why = None
     if ok:
         order = srt[0].value
         mv = mat[0].value
         ok = mv[0] == "call" and mv[1][0] == "x" and mv[1][1].endswith("csr_matrix") and mv[2] and mv[2][0][0] == "tuple" \
             and tkey(mv[2][0][1][0]) == tkey(("idx", D, (order,)))
+        if not ok:
+            why = "the stored matrix is not built from data[<stored order>]"
+        elif order[0] == "call" and order[1] == ("x", "numpy.lexsort"):
+            pass        # a two-key sort: no key arithmetic that could overflow
+        elif order[0] == "call" and order[1] == ("x", "numpy.argsort") and order[2]:
+            # a single sort key row * n + col: the triplet index arrays are 32-bit, so the key must be formed in 64 bits
+            wide = any(x[0] == "call" and ((x[1][0] == "attr" and x[1][2] == "astype" and x[2] and tshow(x[2][0]).endswith("int64"))
+                                           or x[1] in (("x", "numpy.int64"),)) for x in walk(order[2][0]))
+            arith = any(x[0] in ("opn", "op") and x[1] in ("*", "+") for x in walk(order[2][0]))
+            if arith and not wide:
+                ok, why = False, "single-key sort %s forms row * n + col in the 32-bit type of the index arrays" % tshow(order)[:100]
+        else:
+            raise AnalysisError("unrecognised shape: ordering of the cached matrix entries: %s" % tshow(order)[:120])
     run.ob("cached-order-is-the-applied-order", ok,
-           "the stored matrix holds the data permuted by exactly the lexsort order that is stored next to it", w)
+           "the stored matrix holds the data permuted by exactly the (row, column) order that is stored next to it", w, detail=why)
     ent = mh.load_entries()
     lv_cond = [e for e in mh.r.stores() if tkey(base_of(e.base)) in {tkey(base_of(x.base)) for x in mh.r.stores() if x.seq in {y["seq"] for y in ent}}
                and any(_mentions(c, "_internal_data") or is_opt(c) for c, _ in e.cond)]
